@@ -404,3 +404,53 @@ def ob_two_subscribers(n: int, k1: int, k2: int, g1: int, g2: int, slow1: int, s
         r = _multi_sub_scenario(MemoryWorkflowStore(), n, k1, k2, g1, g2, slow1)
     k1, k2 = pick_int(k1, -1, 1), pick_int(k2, -1, 1)
     return r[0] == list(range(k1 + 1, n)) and r[1] == list(range(k2 + 1, n))
+
+
+# ------------------------------------------------------------------------------------------------ the writer: publication order
+# Steps publish with ctx.write_event_to_stream(), which is fire-and-forget: several publications of one step execution are in flight at
+# once and _ServerInternalRunAdapter.write_to_event_stream is what numbers them (store.append_event under its write lock, wrapped in the
+# runtime's retry/back-off).  "Consecutive sequence numbers in publication order" has to survive a transient append failure.
+from vlib.h_stores2 import FaultStore, StubInner  # noqa: E402
+from vlib.h_stores import untraced as _untraced  # noqa: E402
+from llama_agents.server._runtime.server_runtime import ServerRuntimeDecorator, _ServerInternalRunAdapter  # noqa: E402
+from workflows.events import Event as _WEvent  # noqa: E402
+from workflows.plugins.basic import BasicRuntime as _BasicRuntime  # noqa: E402
+
+
+class Tok(_WEvent):
+    i: int
+
+
+@obligation(quick=120, thorough=300, partitions_quick=[f"app_mode == {m}" for m in (0, 1, 2)],
+            what="the REAL _ServerInternalRunAdapter.write_to_event_stream over ServerRuntimeDecorator._retry_store_write: n publications started "
+                 "in order as concurrent tasks (what fire-and-forget ctx.write_event_to_stream does), the first or second append failing "
+                 "transiently f times (back-off waited out): the stored log numbers them 0..n-1 in publication order, on both stores",
+            bounds={"publications": "2..4", "failing append": "none / 1st / 2nd", "consecutive failures": "1..2 (= len(backoff))", "store": "memory / sqlite"})
+def ob_writer_publication_order(n: int, app_mode: int, f: int, sq: bool) -> bool:
+    """
+    pre: 2 <= n <= 4 and 0 <= app_mode <= 2 and 1 <= f <= 2
+    post: _
+    """
+    n, app_mode, f = pick_int(n, 2, 4), pick_int(app_mode, 0, 2), pick_int(f, 1, 2)
+    sq = True if sq else False
+    with _untraced():
+        return _writer_scenario(n, app_mode, f, sq)
+
+
+def _writer_scenario(n: int, app_mode: int, f: int, sq: bool) -> bool:
+    with TmpDir() as tmp:
+        inner_store = SqliteWorkflowStore(os.path.join(tmp, "s.db")) if sq else MemoryWorkflowStore()
+        store = FaultStore(inner_store, (), app_mode, f)
+        rt = ServerRuntimeDecorator(_BasicRuntime(), store, persistence_backoff=[1, 2])
+        adapter = _ServerInternalRunAdapter(StubInner("r0", False), rt)
+        loop = MiniLoop()
+
+        async def main():
+            tasks = [asyncio.ensure_future(adapter.write_to_event_stream(Tok(i=i))) for i in range(n)]
+            await asyncio.gather(*tasks)
+            return await inner_store.query_events("r0")
+
+        stored = loop.run_until_complete(main())
+    if [e.sequence for e in stored] != list(range(n)):
+        return False
+    return [e.event.value.get("i") for e in stored] == list(range(n))
